@@ -162,7 +162,8 @@ def render_srt(lines, rng, eol="\n", syntax="mixed", final_eol=True):
 
 CHARS = "abcXYZ 019.,!?'-é中\U0001F600"
 COLOURS = [("red", None), ("blue", None), ("lime", None), ("yellow", None), ("white", None), ("green", None), ("fuchsia", None),
-           ("", [255, 0, 0, 255]), ("", [0, 0, 255, 255]), ("", [18, 52, 86, 255]), ("", [171, 205, 239, 128])]
+           ("", [255, 0, 0, 255]), ("", [0, 0, 255, 255]), ("", [18, 52, 86, 255]), ("", [171, 205, 239, 128]),
+           ("", [255, 0, 0, 0]), ("", [0, 0, 0, 0]), ("", [16, 32, 48, 1]), ("", [0, 0, 0, 255])]      # alpha and components at their extremes
 
 BOUNDARY_MS = [0, 1, 40, 80, 100, 125, 280, 290, 333, 500, 560, 570, 999, 960, 200, 600, 700]
 
